@@ -32,7 +32,9 @@ namespace Grol.E
 
 /-! ### the relation `≈` -/
 
-/-- `s ≈ t`: equal in every field except the writer stack `outs` and the step counter `steps` -/
+/-- `s ≈ t`: equal in every field except the writer stack `outs` and the step counter `steps`
+(the C06/C19 instrumentation log `hazards` counts as a field: the evaluator never reads it, but that
+non-interference is not proved here, so `≈` asks for equal logs) -/
 def SameSession (s t : St) : Prop := startInput s = startInput t
 
 theorem SameSession.refl (s : St) : SameSession s s := rfl
@@ -44,12 +46,12 @@ theorem sameSession_startInput (s : St) : SameSession s (startInput s) := rfl
 
 theorem sameSession_iff (s t : St) :
     SameSession s t ↔ s.cfg = t.cfg ∧ s.frames = t.frames ∧ s.cur = t.cur ∧ s.root = t.root ∧ s.depth = t.depth ∧
-      s.cache = t.cache ∧ s.extNames = t.extNames := by
+      s.cache = t.cache ∧ s.extNames = t.extNames ∧ s.hazards = t.hazards := by
   cases s; cases t
   simp only [SameSession, startInput, St.mk.injEq]
   constructor
-  · rintro ⟨h1, h2, h3, h4, h5, -, h6, -, h7⟩; exact ⟨h1, h2, h3, h4, h5, h6, h7⟩
-  · rintro ⟨h1, h2, h3, h4, h5, h6, h7⟩; exact ⟨h1, h2, h3, h4, h5, trivial, h6, trivial, h7⟩
+  · rintro ⟨h1, h2, h3, h4, h5, -, h6, -, h7, h8⟩; exact ⟨h1, h2, h3, h4, h5, h6, h7, h8⟩
+  · rintro ⟨h1, h2, h3, h4, h5, h6, h7, h8⟩; exact ⟨h1, h2, h3, h4, h5, trivial, h6, trivial, h7, h8⟩
 
 /-! ### determinism of one input up to `≈` -/
 
@@ -186,21 +188,23 @@ theorem C10.no_trace_of_same {st : St} {f : Node} (h : SameSession (runInput st 
     runInputs (runInput st f).1 ps = runInputs st ps :=
   C10.runInputs_congr h ps
 
-/-- **No trace.**  From a top-level state, an input (failing or not) whose final state has the heap
-and the cache it started with leaves no trace: every continuation of inputs produces exactly the
+/-- **No trace.**  From a top-level state, an input (failing or not) whose final state has the heap,
+the cache (and the instrumentation log of in-place writes, `hazards`: a failing input that wrote
+nothing in place adds nothing to it) it started with leaves no trace: every continuation of inputs produces exactly the
 observations it produces without it.  Scope and depth are supplied by `C10.reset`, configuration, root
 pointer and extension names by `C10.runInput_keeps`; writer stack and step counter are irrelevant by
 `C10.runInputs_congr`. -/
 theorem C10.no_trace (st : St) (f : Node) (o : InputObs) (hTop : AtTop st)
     (hf : (runInput st f).2 = .ok o)
     (hframes : (runInput st f).1.frames = st.frames) (hcache : (runInput st f).1.cache = st.cache)
+    (hhaz : (runInput st f).1.hazards = st.hazards)
     (ps : List Node) :
     runInputs (runInput st f).1 ps = runInputs st ps := by
   have hr := C10.reset st f o hTop hf
   have hk := C10.runInput_keeps st f
   apply C10.no_trace_of_same
   rw [sameSession_iff]
-  exact ⟨hk.cfg, hframes, by rw [hr.1, hk.root, hTop.1], hk.root, by rw [hr.2, hTop.2], hcache, hk.extNames⟩
+  exact ⟨hk.cfg, hframes, by rw [hr.1, hk.root, hTop.1], hk.root, by rw [hr.2, hTop.2], hcache, hk.extNames, hhaz⟩
 
 /-- top level is an invariant of the session: it holds initially … -/
 theorem C10.atTop_init (cfg : Cfg) : AtTop (initState cfg) := ⟨rfl, rfl⟩
@@ -220,8 +224,9 @@ def C10.deepProg : Node := .stmts [.call (.ident "f") []]
 example :
     let st := startInput (initState {})
     let r := finishInput (outcome (eval defaultFuel C10.errProg) st) (stateAfter (eval defaultFuel C10.errProg) st)
-    r.2.toOption.map (·.isErr) = some true ∧ r.1.frames = st.frames ∧ r.1.cache = st.cache := by
-  refine ⟨rfl, rfl, rfl⟩
+    r.2.toOption.map (·.isErr) = some true ∧ r.1.frames = st.frames ∧ r.1.cache = st.cache ∧
+      r.1.hazards = st.hazards := by
+  refine ⟨rfl, rfl, rfl, rfl⟩
 
 /-- the depth guard leaves the depth counter at 1: the evaluation itself does NOT restore it, the
 recover's reset does -/
